@@ -31,7 +31,7 @@ def s_uses_env(case):
 def s_in_domain(pers, cands):
     """D17: among the modules that can be registered, (priority, name) identifies the module; priorities are ordinary"""
     keys = [(m["prio"], m["name"]) for _, m in cands]
-    return len(set(keys)) == len(keys) and all(abs(m["prio"]) <= 2 ** 30 for _, m in cands)
+    return len(set(keys)) == len(keys) and all(-2 ** 30 <= m["prio"] < 2 ** 30 for _, m in cands)
 
 
 def s_spec(who, pers, base, forced, chain, entries, mods):
@@ -150,8 +150,8 @@ def sentinel():
     return {"type": "misc", "name": "~~", "prio": -1000000000, "pers": 3, "initrc": 0, "opts": [["h", 0, 3]]}
 
 
-def gen_modset(r, nmax=6, wild=False, allow_ties=True):
-    n = r.range(1, nmax)
+def gen_modset(r, nmax=6, wild=False, allow_ties=True, exact=False):
+    n = nmax if exact else r.range(1, nmax)
     ms = []
     while len(ms) < n:
         if ms and r.chance(3, 10):
@@ -219,7 +219,7 @@ def gen_logic_case(r, wild=False):
 
 def gen_perm_group(r):
     """<= 4 modules, every enumeration order forced through the wrapped readdir"""
-    ms = gen_modset(r, nmax=r.choice([2, 3, 3, 4]), allow_ties=r.chance(1, 6))
+    ms = gen_modset(r, nmax=r.choice([2, 3, 3, 3, 4]), allow_ties=r.chance(1, 6), exact=True)
     prog = "pdcp" if r.chance(1, 3) else "pdsh"
     fl = files_for(r, ms, junk=False)
     base = {"kind": "perm", "prog": prog, "forced": gen_forced(r, ms), "forced_via": "M", "files": fl, "chain": [[0, 0o755]], "run_as": "root", "alt": 0, "dirsel": "builtin"}
@@ -309,9 +309,40 @@ def case_record(rec):
     return {"case": c, "enumeration": rec["names"], "entries": rec["entries"], "chain": rec["chain"], "who": list(rec["who"]), "raw": rec["obs"].get("raw")}
 
 
+KNOWN_PERS = "F-C17-register-personality-order"
+KNOWN_SUID = "F-C17-setuid-module-dir"
+
+
+def sig_personality(rec):
+    """a file that does not fit the personality follows, in enumeration order, a lower-priority usable file of the same type and name"""
+    seen = []
+    for nm in rec["names"]:
+        m = rec["mods"].get(nm)
+        if m is None:
+            continue
+        for a in seen:
+            if (a["type"], a["name"]) == (m["type"], m["name"]) and m["prio"] > a["prio"] and not (m["pers"] & rec["pers"]) and (a["pers"] & rec["pers"]):
+                return True
+        seen.append(m)
+    return False
+
+
+def sig_suid(rec):
+    return rec["case"]["run_as"] == "suid" and rec["case"].get("dirsel", "builtin") != "builtin"
+
+
 def judge(ctx, rec, stats):
     """returns number of problems reported"""
     case, obs, mobs = rec["case"], rec["obs"], rec["mobs"]
+    if sig_suid(rec) and ctx.is_known(KNOWN_SUID) and [nm for nm in obs["opened"] if nm not in rec["ids"]]:
+        ctx.known_finding(KNOWN_SUID, "a set-uid pdsh honours PDSH_MODULE_DIR (privsep_init has dropped the effective uid before main() compares it)")
+        return 0
+    if sig_personality(rec) and ctx.is_known(KNOWN_PERS):
+        spec0 = s_spec(rec["who"], rec["pers"], rec["base"], case["forced"], rec["chain"], rec["entries"], rec["mods"])
+        if compare(obs, dict(spec0, opened=[nm for nm in spec0["opened"] if rec["mods"].get(nm) is not None])):
+            rec["spec"] = spec0
+            ctx.known_finding(KNOWN_PERS, "a module of the other personality displaces a loaded lower-priority module of the same type/name before being dropped itself: result depends on readdir order")
+            return 0
     spec = s_spec(rec["who"], rec["pers"], rec["base"], case["forced"], rec["chain"], rec["entries"], rec["mods"])
     rec["spec"] = spec
     # dlopen of something that is not a shared object maps no code: only module files leave a trace
@@ -342,8 +373,12 @@ def judge(ctx, rec, stats):
                     d = "option -%s handled by %r, the module that registered it / usage error expected: %r" % (c, tgt, exp)
                     break
         if d:
+            hint = ""
+            if sig_personality(rec):
+                hint = " [a file that does not fit the personality follows a lower-priority usable file of the same type/name in readdir order and displaces it: " \
+                       "the outcome depends on the enumeration order, cf. corpus/C17/register-personality-order.json]"
             ctx.violation("input", case=cr, expected=json.dumps(canon(spec))[:1500], observed=json.dumps(canon(obs))[:1500], engine="mod",
-                          detail="real loader differs from the specification (highest priority per type/name, -M first, then priority-then-name, all-or-nothing options): " + d)
+                          detail="real loader differs from the specification (highest priority per type/name, -M first, then priority-then-name, all-or-nothing options): " + d + hint)
             n += 1
     if n == 0:
         d = compare(obs, mobs)
@@ -420,24 +455,35 @@ def run(ctx):
     cases = load_corpus()
     ncorpus = len(cases)
     r = ctx.rng("logic")
-    for i in range(260 if quick else 6000):
+    for i in range(260 if quick else 12000):
         c = gen_logic_case(r, wild=(i % 12 == 0))
         ms = [f["mod"] for f in c["files"] if f["kind"] == "mod"]
         c["probes"] = probes_for(r, ms, eng.base[c["prog"]])
         cases.append(c)
     r = ctx.rng("sec")
-    for i in range(220 if quick else 5000):
+    for i in range(220 if quick else 9000):
         cases.append(gen_sec_case(r))
+    if not quick:
+        # exhaustive small scope: one file, one directory level, every owner x mode x caller combination
+        m0 = {"type": "misc", "name": "s0", "prio": 100, "pers": 3, "initrc": 0, "opts": [["X", 0, 3]]}
+        for fo in (0, NOBODY, OTHER, STRANGER):
+            for fm in (0o644, 0o646):
+                for do in (0, NOBODY, OTHER, STRANGER):
+                    for dm in (0o755, 0o757, 0o1757):
+                        for ra, alt in (("root", 0), ("root", OTHER), ("nobody", 0), ("nobody", OTHER), ("suid", OTHER)):
+                            cases.append({"kind": "sec", "prog": "pdsh", "forced": [], "forced_via": "M", "order": None, "chain": [[do, dm]], "run_as": ra, "alt": alt,
+                                          "files": [{"fname": "only.so", "kind": "mod", "owner": fo, "mode": fm, "mod": m0}],
+                                          "dirsel": "builtin" if ra == "root" else "env"})
     r = ctx.rng("perm")
     groups = []
-    for i in range(10 if quick else 250):
+    for i in range(14 if quick else 450):
         g = gen_perm_group(r)
         groups.append((len(cases), len(g)))
         cases.extend(g)
     # the same module set under two different sets of file names (the file system's own enumeration order differs)
     r = ctx.rng("rename")
     twins = []
-    for i in range(30 if quick else 600):
+    for i in range(30 if quick else 1000):
         ms = gen_modset(r, allow_ties=False)
         prog = "pdcp" if r.chance(1, 3) else "pdsh"
         forced = gen_forced(r, ms)
